@@ -336,7 +336,160 @@ def dtype_case(ctx: Ctx, stream: str, i: int) -> None:
         ctx.case(str(cfg), True, sample=cfg)
 
 
+def like_case(ctx: Ctx, stream: str, i: int) -> None:
+    """the *_like helpers, as_structure, as_promoted_dtype and dot on GENERAL pytrees: nested containers whose leaves
+    differ in shape and dtype (several leaves sharing a shape but not a dtype, and sharing a dtype but not a shape),
+    given as arrays or as ShapeDtypeStructs, with fill values that not every dtype can hold.  Reference: every leaf on
+    its own with jnp.full / the leaf's own attributes."""
+    import furax as fx
+    rng = ctx.rng(stream, i)
+    x64 = bool(jax.config.jax_enable_x64)
+    dts = [jnp.int32, jnp.float16, jnp.float32, jnp.bfloat16, jnp.complex64, jnp.int8] + ([jnp.float64] if x64 else [])
+    shapes = [(3,), (3,), (2, 2), (), (1,), (2, 3)]
+    n = rng.randint(2, 5)
+    base_shape = rng.choice(shapes)
+    leaves = []
+    for k in range(n):
+        shape = base_shape if rng.random() < 0.6 else rng.choice(shapes)
+        dt = rng.choice(dts)
+        leaves.append(jax.ShapeDtypeStruct(shape, dt) if rng.random() < 0.5 else jnp.zeros(shape, dt) + (k + 1))
+    form = rng.choice(['dict', 'list', 'nested', 'tuple'])
+    names = ['b', 'a', 'd', 'c', 'e']          # insertion order differs from the (sorted) flatten order
+    if form == 'dict':
+        tree = {names[k]: l for k, l in enumerate(leaves)}
+    elif form == 'list':
+        tree = list(leaves)
+    elif form == 'tuple':
+        tree = tuple(leaves)
+    else:
+        tree = {'z': leaves[:1], 'a': {'y': tuple(leaves[1:2]), 'x': leaves[2:]}}
+    flat, treedef = jax.tree.flatten(tree)
+    cfg = {'container': form, 'leaves': [(tuple(l.shape), str(l.dtype), 'struct' if isinstance(l, jax.ShapeDtypeStruct) else 'array')
+                                         for l in flat]}
+
+    def leafwise(label, got, ref_of_leaf, exact=True):
+        if jax.tree.structure(got) != treedef:
+            ctx.fail(stream, i, f'like:{label}:structure', f'{label} does not reproduce the tree structure', cfg)
+            return
+        for k, (g, l) in enumerate(zip(jax.tree.leaves(got), flat)):
+            if tuple(g.shape) != tuple(l.shape) or g.dtype != l.dtype:
+                ctx.fail(stream, i, f'like:{label}:shape-dtype', f'{label}: leaf {k} has shape {g.shape} dtype {g.dtype}, '
+                         f'the model leaf has {l.shape} {l.dtype}', cfg)
+                return
+            if ref_of_leaf is not None:
+                want = np.asarray(ref_of_leaf(l))
+                if not np.array_equal(np.asarray(g), want):
+                    ctx.fail(stream, i, f'like:{label}:value', f'{label}: leaf {k} ({l.dtype}{list(l.shape)}) holds '
+                             f'{np.asarray(g).ravel()[:3].tolist()}, leaf-wise jnp.full gives {want.ravel()[:3].tolist()}', cfg)
+                    return
+    fill = rng.choice([2.5, 0.1, -3, 7, 300.7, -0.75, 1e-3])
+    st, z = safe(fx.tree.full_like, tree, fill)
+    if st != 'ok':
+        ctx.fail(stream, i, f'like:full_like:{st}', str(z)[:150], {**cfg, 'fill': fill})
+    else:
+        leafwise('full_like', z, lambda l: jnp.full(l.shape, fill, l.dtype))
+    for label, fn, val in (('zeros_like', fx.tree.zeros_like, 0), ('ones_like', fx.tree.ones_like, 1)):
+        st, z = safe(fn, tree)
+        if st != 'ok':
+            ctx.fail(stream, i, f'like:{label}:{st}', str(z)[:150], cfg)
+        else:
+            leafwise(label, z, lambda l, val=val: jnp.full(l.shape, val, l.dtype))
+    st, z = safe(fx.tree.as_structure, tree)
+    if st != 'ok' or not all(isinstance(l, jax.ShapeDtypeStruct) for l in jax.tree.leaves(z)):
+        ctx.fail(stream, i, 'like:as_structure', f'as_structure → {st}', cfg)
+    else:
+        leafwise('as_structure', z, None)
+    st, z = safe(fx.tree.as_promoted_dtype, tree)
+    want = jnp.result_type(*flat)
+    if st != 'ok' or jax.tree.structure(z) != treedef or any(
+            g.dtype != want or tuple(g.shape) != tuple(l.shape) or isinstance(g, jax.ShapeDtypeStruct) != isinstance(l, jax.ShapeDtypeStruct)
+            for g, l in zip(jax.tree.leaves(z), flat)):
+        ctx.fail(stream, i, 'like:as_promoted_dtype', f'as_promoted_dtype → {st}: not every leaf has dtype {want} with its own shape', cfg)
+    elif any(not isinstance(l, jax.ShapeDtypeStruct) and not np.array_equal(np.asarray(g), np.asarray(jnp.astype(l, want)))
+             for g, l in zip(jax.tree.leaves(z), flat)):
+        ctx.fail(stream, i, 'like:as_promoted_dtype:value', 'as_promoted_dtype changed a value beyond the cast', cfg)
+    # random helpers: floating leaves only; every leaf its own stream, the declared shape and dtype, uniform within bounds
+    ftree = jax.tree.map(lambda l: jax.ShapeDtypeStruct(l.shape, l.dtype if np.dtype(l.dtype).kind == 'f' or l.dtype == jnp.bfloat16
+                                                        else jnp.float32), tree)
+    fflat = jax.tree.leaves(ftree)
+    key = jax.random.PRNGKey(i)
+    lo, hi = rng.choice([(0.0, 1.0), (-2.0, 5.0), (3.0, 4.0)])
+    for label, fn in (('normal_like', lambda: fx.tree.normal_like(ftree, key)),
+                      ('uniform_like', lambda: fx.tree.uniform_like(ftree, key, lo, hi))):
+        st, z = safe(fn)
+        if st != 'ok' or jax.tree.structure(z) != treedef or any(
+                tuple(g.shape) != tuple(l.shape) or g.dtype != l.dtype for g, l in zip(jax.tree.leaves(z), fflat)):
+            ctx.fail(stream, i, f'like:{label}', f'{label} → {st}: structure, shape or dtype not reproduced', cfg)
+            continue
+        gl = [np.asarray(g, dtype=np.float64) for g in jax.tree.leaves(z)]
+        if label == 'uniform_like' and any(g.size and (g.min() < lo - 1e-2 or g.max() > hi + 1e-2) for g in gl):
+            ctx.fail(stream, i, 'like:uniform_like:bounds', f'uniform_like({lo}, {hi}) returned values outside the bounds', cfg)
+        same = [(a, b) for a in range(len(gl)) for b in range(a + 1, len(gl))
+                if gl[a].shape == gl[b].shape and gl[a].size >= 3 and fflat[a].dtype == fflat[b].dtype and np.array_equal(gl[a], gl[b])]
+        if same:
+            ctx.fail(stream, i, f'like:{label}:same-stream', f'{label}: leaves {same[0]} are identical (the key is not split per leaf)', cfg)
+    ctx.case(f'like:{form}:{cfg["leaves"]}:{fill}', True, sample={'like': form, 'n_leaves': n})
+    ctx.count('like:' + form)
+
+
+def landscape_case(ctx: Ctx, stream: str, i: int) -> None:
+    """container attributes (shape, dtype, structure) and the landscape-level factories, which delegate to the Stokes
+    classes: kind, shape, dtype, values, size"""
+    from furax.landscapes import HealpixLandscape, StokesLandscape, StokesPyTree
+    rng = ctx.rng(stream, i)
+    kind = rng.choice(KINDS)
+    cls = StokesPyTree.class_for(kind)
+    shape = rng.choice([(2,), (3, 2), (1, 4)])
+    dt = rng.choice([jnp.float32, jnp.float16, jnp.int32])
+    x = cls(*[jnp.full(shape, c + 1, dtype=dt) for c in range(len(kind))])
+    cfg = {'kind': kind, 'shape': shape, 'dtype': str(np.dtype(dt))}
+    if tuple(x.shape) != shape or x.dtype != dt:
+        ctx.fail(stream, i, 'container-attributes', f'shape/dtype of a {kind} container: {x.shape} {x.dtype}', cfg)
+    sx_ = x.structure
+    if type(sx_) is not cls or any(not isinstance(l, jax.ShapeDtypeStruct) or tuple(l.shape) != shape or l.dtype != dt
+                                   for l in jax.tree.leaves(sx_)) or len(jax.tree.leaves(sx_)) != len(kind):
+        ctx.fail(stream, i, 'container-structure', 'x.structure is not the container of ShapeDtypeStructs of its components', cfg)
+    ldt = rng.choice([jnp.float32, jnp.float16] + ([jnp.float64] if jax.config.jax_enable_x64 else []))
+    if rng.random() < 0.5:
+        nside = rng.choice([1, 2, 4])
+        land = HealpixLandscape(nside, kind, ldt)
+        lshape = (12 * nside * nside,)
+    else:
+        lshape = rng.choice([(3,), (2, 3), (2, 2, 3)])
+
+        class Flat(StokesLandscape):          # the base class leaves only the world → pixel map abstract
+            def world2pixel(self, theta, phi):
+                return (theta,) * len(self.shape)
+        land = Flat(lshape, kind, ldt)
+    cfg = {**cfg, 'landscape': type(land).__name__, 'landscape_shape': lshape, 'landscape_dtype': str(np.dtype(ldt))}
+    if tuple(land.shape) != lshape or len(land) != int(np.prod(lshape)) or land.size != len(kind) * int(np.prod(lshape)):
+        ctx.fail(stream, i, 'landscape-sizes', f'shape {land.shape}, len {len(land)}, size {land.size}', cfg)
+    ls = land.structure
+    if type(ls) is not cls or any(tuple(l.shape) != lshape or l.dtype != ldt for l in jax.tree.leaves(ls)):
+        ctx.fail(stream, i, 'landscape-structure', 'landscape.structure is not the Stokes structure of its shape and dtype', cfg)
+    key = jax.random.PRNGKey(i)
+    fill = rng.choice([2.5, -1.0, 0.1])
+    for label, mk, val in (('zeros', land.zeros, 0.0), ('ones', land.ones, 1.0), ('full', lambda: land.full(fill), fill),
+                           ('normal', lambda: land.normal(key), None), ('uniform', lambda: land.uniform(key, 2.0, 3.0), None)):
+        st, z = safe(mk)
+        if st != 'ok' or type(z) is not cls or any(tuple(l.shape) != lshape or l.dtype != ldt for l in jax.tree.leaves(z)):
+            ctx.fail(stream, i, f'landscape-factory:{label}', f'landscape.{label} → {st}: kind, shape or dtype not those of the landscape', cfg)
+        elif val is not None and any(not np.array_equal(np.asarray(l), np.asarray(jnp.full(lshape, val, ldt))) for l in jax.tree.leaves(z)):
+            ctx.fail(stream, i, f'landscape-factory:{label}:value', f'landscape.{label} holds other values than {val}', cfg)
+        elif label == 'uniform' and any(np.asarray(l, dtype=np.float64).min() < 2.0 - 1e-2 or np.asarray(l, dtype=np.float64).max() > 3.0 + 1e-2
+                                        for l in jax.tree.leaves(z)):
+            ctx.fail(stream, i, 'landscape-factory:uniform:bounds', 'landscape.uniform(key, 2, 3) left the bounds', cfg)
+    ctx.case(f'landscape:{cfg}', True, sample={'landscape': cfg['landscape']})
+    ctx.count('landscape:' + cfg['landscape'])
+
+
 def run(ctx: Ctx) -> None:
+    for i in range(60 if ctx.tier == 'quick' else 1500):
+        if ctx.want('like', i):
+            like_case(ctx, 'like', i)
+    for i in range(24 if ctx.tier == 'quick' else 400):
+        if ctx.want('landscape', i):
+            landscape_case(ctx, 'landscape', i)
     q = ctx.tier == 'quick'
     for i in range(300 if q else 8000):
         if ctx.want('op', i):
